@@ -15,13 +15,14 @@ from scipy.spatial.distance import cdist
 MODELS = ["Gaussian", "Exponential", "Spherical", "Matern", "Stable", "Cubic", "Rational", "Linear", "Circular"]
 
 
-def make_model(rng, dim, latlon=False, temporal=False, nugget=None, aniso=True, names=None):
+def make_model(rng, dim, latlon=False, temporal=False, nugget=None, aniso=True, names=None, unit=1.0):
+    """unit: length unit of the coordinates (the drawn length scale is multiplied by it; ignored for lat-lon)"""
     with warnings.catch_warnings():
         warnings.simplefilter("ignore")
-        return _make_model(rng, dim, latlon, temporal, nugget, aniso, names)
+        return _make_model(rng, dim, latlon, temporal, nugget, aniso, names, unit)
 
 
-def _make_model(rng, dim, latlon=False, temporal=False, nugget=None, aniso=True, names=None):
+def _make_model(rng, dim, latlon=False, temporal=False, nugget=None, aniso=True, names=None, unit=1.0):
     import gstools as gs
     name = str(rng.choice(names or MODELS))
     if dim > 1 and name == "Linear":
@@ -38,6 +39,8 @@ def _make_model(rng, dim, latlon=False, temporal=False, nugget=None, aniso=True,
         if temporal:
             kw.update(temporal=True, anis=float(rng.choice([0.5, 1.0, 2.0])))
         return getattr(gs, name)(**kw)
+    if unit != 1.0:
+        kw["len_scale"] = kw["len_scale"] * float(unit)
     fdim = dim + (1 if temporal else 0)
     if temporal:
         kw.update(temporal=True, spatial_dim=dim)
@@ -87,12 +90,23 @@ def norm_par(spec):
     return dict(kind=spec["kind"], lmbda=fbits([spec["lmbda"]])[0], shift=fbits([spec["shift"]])[0])
 
 
+def _snap(l, kind):
+    """the exponent with the documented limit forms: within np.isclose of 0 (and of 2 for Yeo-Johnson) the
+    normalisers ARE the logarithmic / linear limit (C18 models this predicate); only fitted exponents ever fall
+    strictly inside these bands, the generated ones are exactly on or far from them"""
+    if abs(l) <= 1e-8:
+        return 0.0
+    if kind == "YeoJohnson" and abs(l - 2.0) <= 1e-8 + 2e-5:
+        return 2.0
+    return l
+
+
 def ref_normalize(spec, x):
     """independent formulas (textbook definitions), NaN outside the input range"""
     x = np.asarray(x, dtype=float)
     if spec is None:
         return x.copy()
-    k, l, s = spec["kind"], spec["lmbda"], spec["shift"]
+    k, l, s = spec["kind"], _snap(spec["lmbda"], spec["kind"]), spec["shift"]
     with np.errstate(all="ignore"):
         if k == "LogNormal":
             return np.where(x > 0, np.log(x), np.nan)
@@ -118,7 +132,7 @@ def ref_denormalize(spec, y):
     y = np.asarray(y, dtype=float)
     if spec is None:
         return y.copy()
-    k, l, s = spec["kind"], spec["lmbda"], spec["shift"]
+    k, l, s = spec["kind"], _snap(spec["lmbda"], spec["kind"]), spec["shift"]
     with np.errstate(all="ignore"):
         if k == "LogNormal":
             return np.exp(y)
@@ -148,7 +162,7 @@ def gauss_range(spec):
     """(lo, hi) interval of normalised values that the inverse map accepts with a safety margin"""
     if spec is None:
         return -np.inf, np.inf
-    k, l = spec["kind"], spec["lmbda"]
+    k, l = spec["kind"], _snap(spec["lmbda"], spec["kind"])
     if k in ("BoxCox", "BoxCoxShift", "Manly") and l != 0:
         return (-0.8 / l, np.inf) if l > 0 else (-np.inf, 0.8 / abs(l))
     if k in ("YeoJohnson", "Modulus") and l < 0:
@@ -159,10 +173,48 @@ def gauss_range(spec):
 
 
 # ------------------------------------------------------------------ mean / trend / drift functions as data
+class Frame:
+    """coordinates of a configuration: raw = origin + unit * local (projected map coordinates with a large false
+    easting / northing, millimetres, kilometres ...).  User functions (mean, trend, custom drifts) are written in
+    local coordinates; `scale` is the divisor the mean / trend functions apply to them."""
+
+    def __init__(self, scale, origin, unit):
+        self.scale = np.asarray(scale, dtype=float)
+        self.origin = np.asarray(origin, dtype=float)
+        self.unit = float(unit)
+
+    def loc(self, x, i, div=None):
+        """local coordinate i of the position tuple x, divided by `div` (default: scale[i])"""
+        d = self.scale[i] if div is None else div
+        return (np.asarray(x[i], dtype=float) - self.origin[i]) / d
+
+
+UNITS = [1e-3, 0.05, 1.0, 100.0, 100.0, 1e3]                       # length of one local unit in raw coordinates
+ORIGIN_RATIOS = [0.0, 0.0, 12.5, 4.5e3, 5.7e4, -2.3e4, 1e4]        # |origin| / unit (UTM: 4.5e5 m / 5.7e6 m with unit 100 m)
+
+
+def unit_of(cfg):
+    fr = cfg.get("frame")
+    return 1.0 if fr is None else float(fr["unit"])
+
+
+def origin_of(cfg):
+    fr = cfg.get("frame")
+    return np.zeros(cfg["fdim"]) if fr is None else np.asarray(fr["origin"], dtype=float)
+
+
+def to_raw(cfg, p):
+    """local coordinates (fdim, m) -> raw coordinates of the configuration"""
+    if cfg.get("frame") is None:
+        return np.asarray(p, dtype=float)
+    return origin_of(cfg)[:, None] + unit_of(cfg) * np.asarray(p, dtype=float)
+
+
 def pos_scale(cfg):
+    """the Frame of a configuration (opaque argument `scale` of func_of / eval_spec)"""
     if cfg["latlon"]:
-        return np.array([90.0, 180.0, 4.0][: cfg["fdim"]])
-    return np.full(cfg["fdim"], 8.0)
+        return Frame(np.array([90.0, 180.0, 4.0][: cfg["fdim"]]), np.zeros(cfg["fdim"]), 1.0)
+    return Frame(np.full(cfg["fdim"], 8.0) * unit_of(cfg), origin_of(cfg), unit_of(cfg))
 
 
 def gen_func(rng, fdim, amp, kinds=("none", "const", "lin", "sin"), p=None):
@@ -186,11 +238,10 @@ def func_of(spec, scale):
         return float(spec[1])
     if spec[0] == "lin":
         a0, c = spec[1], list(spec[2])
-        return lambda *x: a0 + sum(ci * np.asarray(xi, dtype=float) / si for ci, xi, si in zip(c, x, scale))
+        return lambda *x: a0 + sum(ci * scale.loc(x, i) for i, ci in enumerate(c))
     if spec[0] == "sin":
         a0, b, w = spec[1:]
-        return lambda *x: a0 + b * np.sin(w * np.asarray(x[0], dtype=float) / scale[0]) \
-            + 0.5 * b * np.asarray(x[-1], dtype=float) / scale[-1]
+        return lambda *x: a0 + b * np.sin(w * scale.loc(x, 0)) + 0.5 * b * scale.loc(x, len(x) - 1)
     raise ValueError(spec)
 
 
@@ -213,7 +264,7 @@ def drift_callables(cfg):
     if d is None:
         return []
     if isinstance(d, tuple):    # ("custom", [specs])
-        return [custom_drift(sp) for sp in d[1]]
+        return [custom_drift(sp, pos_scale(cfg)) for sp in d[1]]
     order = {"linear": 1, "quadratic": 2}.get(d, d)
     out = []
     for deg in range(1, int(order) + 1):
@@ -222,15 +273,17 @@ def drift_callables(cfg):
     return out
 
 
-def custom_drift(sp):
+def custom_drift(sp, fr):
+    """user drift functions of the local coordinates (x - origin) / unit"""
+    u = fr.unit
     if sp[0] == "coord":
         i = sp[1]
-        return lambda *x: np.asarray(x[i], dtype=float)
+        return lambda *x: fr.loc(x, i, u)
     if sp[0] == "sinmix":
-        return lambda *x: np.sin(np.asarray(x[0], dtype=float)) + 0.5 * np.asarray(x[-1], dtype=float)
+        return lambda *x: np.sin(fr.loc(x, 0, u)) + 0.5 * fr.loc(x, len(x) - 1, u)
     if sp[0] == "sq":
         i = sp[1]
-        return lambda *x: 0.1 * np.asarray(x[i], dtype=float) ** 2
+        return lambda *x: 0.1 * fr.loc(x, i, u) ** 2
     raise ValueError(sp)
 
 
@@ -238,7 +291,7 @@ def drift_arg(cfg):
     """the `drift_functions` argument handed to gstools"""
     d = cfg.get("drift")
     if isinstance(d, tuple):
-        fs = [custom_drift(sp) for sp in d[1]]
+        fs = [custom_drift(sp, pos_scale(cfg)) for sp in d[1]]
         return fs[0] if (len(fs) == 1 and d[2]) else fs     # a single callable may be passed bare
     return d
 
@@ -282,11 +335,22 @@ VARIANTS = ("Simple", "Ordinary", "Universal", "ExtDrift", "Detrended", "Krige")
 VARIANT_WEIGHT = {"Simple": 0.2, "Ordinary": 0.13, "Universal": 0.17, "ExtDrift": 0.15, "Detrended": 0.1, "Krige": 0.25}
 
 
-def gen_config(rng, variants=VARIANTS, latlon_ok=True, max_n=9, mnt=True):
+def gen_config(rng, variants=VARIANTS, latlon_ok=True, max_n=9, mnt=True, frames=True, strat=None):
     """returns dict describing a kriging problem (everything needed to rebuild it).
-    mnt=True: non-identity normalizers, constant / callable means and trends wherever the variant accepts them"""
+    mnt=True: non-identity normalizers, constant / callable means and trends wherever the variant accepts them
+    frames=True: a third of the Cartesian problems live in an affine frame raw = origin + unit * local (magnitudes
+    1e-3 .. 6e7, e.g. UTM-like 4.5e5 / 5.7e6 with a length unit of 100); the length scale carries the unit
+    strat: index of the case in its loop.  Every second case is stratified: the variant cycles through `variants` and
+    the combination (exact flag, model nugget > 0) cycles through its four values, so that every variant meets every
+    such combination in every run however small; the other cases are drawn freely"""
     pv = np.array([VARIANT_WEIGHT[v] for v in variants], dtype=float)
     variant = str(rng.choice(variants, p=pv / pv.sum()))
+    forced = None
+    if strat is not None and strat % 2 == 0:
+        k = strat // 2
+        variant = variants[k % len(variants)]
+        c = (k // len(variants)) % 4
+        forced = dict(exact=bool(c & 1), nugget=float(rng.choice([0.125, 0.5])) if c & 2 else 0.0)
     generic = variant == "Krige"
     latlon = bool(latlon_ok and rng.rand() < 0.15 and variant in ("Simple", "Ordinary", "Krige"))
     temporal = bool(rng.rand() < 0.15)
@@ -306,7 +370,16 @@ def gen_config(rng, variants=VARIANTS, latlon_ok=True, max_n=9, mnt=True):
     n = cp.shape[1]
     cfg = dict(variant=variant, latlon=latlon, temporal=temporal, dim=dim, fdim=fdim, cond_pos=cp,
                pos=tp, seed=int(rng.randint(0, 2**31 - 1)))
+    cfg["frame"] = None
+    if frames and not latlon and rng.rand() < 0.33:
+        unit = float(rng.choice(UNITS))
+        cfg["frame"] = dict(unit=unit, origin=[float(unit * r) for r in rng.choice(ORIGIN_RATIOS, size=fdim)])
+        cp, tp = to_raw(cfg, cp), to_raw(cfg, tp)
+        cfg.update(cond_pos=cp, pos=tp)
     cfg["exact"] = bool(rng.rand() < 0.3)
+    cfg["nugget"] = None          # None: the model's nugget is drawn with the model
+    if forced is not None:
+        cfg.update(forced)
     cfg["cond_err"] = "nugget"
     if not cfg["exact"] and rng.rand() < 0.3:
         cfg["cond_err"] = float(rng.choice([0.0, 0.0625])) if rng.rand() < 0.5 else (rng.randint(0, 3, n) / 16.0)
@@ -319,6 +392,8 @@ def gen_config(rng, variants=VARIANTS, latlon_ok=True, max_n=9, mnt=True):
         ch = str(rng.choice(["linear", "linear", "1", "0", "quadratic", "custom", "custom"])) if n > fdim + 2 else "0"
         if ch == "quadratic" and n <= (fdim + 1) * (fdim + 2) // 2 + 1:
             ch = "linear"
+        if cfg["frame"] is not None and ch in ("linear", "quadratic", "1") and rng.rand() < 0.7:
+            ch = "custom"     # polynomial drifts of raw map coordinates make the system numerically singular (discarded)
         if ch == "custom":
             pool = [("coord", int(rng.randint(0, fdim))), ("sinmix",), ("sq", int(rng.randint(0, fdim)))]
             k = int(rng.randint(1, 3))
@@ -333,6 +408,18 @@ def gen_config(rng, variants=VARIANTS, latlon_ok=True, max_n=9, mnt=True):
         k = int(rng.randint(1, 3)) if room >= 2 else 1
         if room >= 1 or shape != "free":
             cfg["ext"] = (rng.randn(k, n), rng.randn(k, m))
+    # a quarter of the problems have some targets ON conditioning points (carrying the data's external drift): the only
+    # targets where exact / non-exact kriging and the nugget-aware covariance differ
+    if rng.rand() < 0.25:
+        j = rng.permutation(n)[: int(rng.randint(1, 1 + min(n, m, 3)))]
+        idx = rng.permutation(m)[: len(j)]
+        tp = np.array(cfg["pos"], copy=True)
+        tp[:, idx] = cfg["cond_pos"][:, j]
+        cfg["pos"] = tp
+        if cfg["ext"] is not None:
+            et = np.array(cfg["ext"][1], copy=True)
+            et[:, idx] = cfg["ext"][0][:, j]
+            cfg["ext"] = (cfg["ext"][0], et)
     # mean / normalizer / trend wherever the variant accepts them
     cfg["mean"], cfg["norm"], cfg["trend"] = None, None, None
     takes_mean = variant == "Simple" or generic
@@ -375,16 +462,19 @@ def mnt_tag(cfg):
     return f"norm={'none' if cfg.get('norm') is None else cfg['norm']['kind']}/mean={f(cfg.get('mean'))}/trend={f(cfg.get('trend'))}"
 
 
-def build(cfg, capture=None, cond_pos=None, cond_val=None, ext_cond=None, model=None):
-    """construct the Krige object described by cfg.  capture: list receiving the raw kriging matrices"""
+def build(cfg, capture=None, cond_pos=None, cond_val=None, ext_cond=None, model=None, fit=None):
+    """construct the Krige object described by cfg.  capture: list receiving the raw kriging matrices.
+    fit: None | dict(variogram=bool, normalizer=bool) -> fit_variogram / fit_normalizer of the constructor"""
     import gstools as gs
     from gstools import krige
     mr = np.random.RandomState(cfg["model_seed"])
     if model is None:
-        model = make_model(mr, cfg["dim"], cfg["latlon"], cfg["temporal"])
+        model = make_model(mr, cfg["dim"], cfg["latlon"], cfg["temporal"], nugget=cfg.get("nugget"), unit=unit_of(cfg))
     cp = cfg["cond_pos"] if cond_pos is None else cond_pos
     cv = cfg["cond_val"] if cond_val is None else cond_val
     kw = dict(exact=cfg["exact"], cond_err=cfg["cond_err"], pseudo_inv=cfg["pinv"], pseudo_inv_type=cfg["pinv_type"])
+    if fit:
+        kw.update(fit_variogram=bool(fit.get("variogram")), fit_normalizer=bool(fit.get("normalizer")))
     if capture is not None:
         def cap(mat, _t=cfg["pinv_type"], _p=cfg["pinv"]):
             capture.append(np.array(mat, copy=True))
@@ -406,6 +496,7 @@ def build(cfg, capture=None, cond_pos=None, cond_val=None, ext_cond=None, model=
     if v == "ExtDrift":
         return krige.ExtDrift(model, cp, cv, ext_drift=ext, **nt, **kw)
     if v == "Detrended":
+        kw.pop("fit_normalizer", None)
         return krige.Detrended(model, cp, cv, trend=trend, **kw)
     if v == "Krige":
         return krige.Krige(model, cp, cv, drift_functions=drift_arg(cfg), ext_drift=ext, mean=mean,
@@ -538,18 +629,55 @@ class History:
         self.rng = rng
         self.cur = copy.deepcopy(cfg)
         self.zero_mode = zero_mode          # C06: None | "exact" | "zero-err" | "no-nugget"
-        self.kr = build(cfg, model=make_hist_model(cfg, zero_mode))
+        self.log = []
+        # construction with fit_variogram / fit_normalizer: the start model is fitted in place (directionally, along its
+        # rotated main axes, when it is not isotropic), the normaliser's parameters are fitted to the detrended data
+        fit = self.draw_fit(0.3)
+        self.kr = build(cfg, model=make_hist_model(cfg, zero_mode), fit=fit)
+        if fit:
+            self.after_fit(fit, "constructed")
         self.counter = 1
         self.init_ids = dict(model=1, pos=1, val=1, err=1, ext=1 if cfg["ext"] is not None else 0, mnt=1)
         self.ops = []
-        self.log = []
         self.stale = False       # a model edit happened after the last set_condition
         self.need_val = False    # the current values may be outside the range of the current normalizer / trend
         self.last_sel = None     # indices of the conditioning points the last on-data call was placed on
+        # target positions: identifier -> (positions, mesh type); unstructured positions are (fdim, m) arrays,
+        # structured ones lists of fdim axes.  `given` = identifier of the positions last given to the object
+        # (by a call that passed positions or by set_pos), None = never
+        self.pos_ids = {}
+        self.given = None
+        self.data_call = None    # (sel) while the last given targets are conditioning points `sel` of the current cond_pos
+        self.kinds = {}
 
     def _id(self):
         self.counter += 1
         return self.counter
+
+    # -- fitting inside the constructor / set_condition
+    def draw_fit(self, p):
+        """None or dict(variogram, normalizer): which fits the next construction / set_condition asks for"""
+        rng, cfg = self.rng, self.cur
+        if rng.rand() >= p:
+            return None
+        # (the fit also fits the nugget: not used where the history must stay nugget-free)
+        fv = not (cfg["latlon"] and cfg["temporal"]) and self.zero_mode != "no-nugget" and cfg["cond_pos"].shape[1] >= 4
+        fn = cfg.get("norm") is not None and cfg["norm"]["kind"] in NORM_LMBDA and cfg["variant"] != "Detrended" \
+            and cfg["cond_pos"].shape[1] >= 4
+        fit = dict(variogram=bool(fv and rng.rand() < 0.8), normalizer=bool(fn and rng.rand() < 0.5))
+        return fit if (fit["variogram"] or fit["normalizer"]) else None
+
+    def after_fit(self, fit, where):
+        """read the fitted normaliser parameters back into the current configuration (the fitted model is read back
+        by `fresh` like every other model state)"""
+        if fit.get("normalizer"):
+            nz = self.kr.normalizer
+            spec = dict(self.cur["norm"], lmbda=float(nz.lmbda))
+            if spec["kind"] == "BoxCoxShift":
+                spec["shift"] = float(nz.shift)
+            self.cur["norm"] = spec
+        self.log.append("fit:" + where + ":" + "+".join(k for k in ("variogram", "normalizer") if fit.get(k))
+                        + (":aniso" if not self.kr.model.is_isotropic else ":iso"))
 
     # -- model edits
     def edit_model(self):
@@ -573,7 +701,7 @@ class History:
             m.angles = [float(a) for a in rng.uniform(-1.5, 1.5, size=cfg["fdim"] * (cfg["fdim"] - 1) // 2)]
         else:
             kr.model = make_model(rng, cfg["dim"], cfg["latlon"], cfg["temporal"],
-                                  nugget=0.0 if self.zero_mode == "no-nugget" else None)
+                                  nugget=0.0 if self.zero_mode == "no-nugget" else None, unit=unit_of(cfg))
         self.stale = True
         self.ops.append(dict(k="model", v=self._id()))
         self.log.append("model:" + k)
@@ -624,8 +752,10 @@ class History:
             arr_err = isinstance(cfg["cond_err"], np.ndarray)
             n_new = n if (arr_err and form != "all") or rng.rand() < 0.5 else int(rng.randint(max(2, n - 2), n + 3))
             cp, _ = gen_positions(rng, cfg["latlon"], cfg["temporal"], cfg["fdim"], n_new, 1)
+            cp = to_raw(cfg, cp)
             if arr_err and form != "all" and cp.shape[1] != n:
-                cp = cfg["cond_pos"] + rng.uniform(-0.2, 0.2, size=cfg["cond_pos"].shape)
+                cp = cfg["cond_pos"] + unit_of(cfg) * rng.uniform(-0.2, 0.2, size=cfg["cond_pos"].shape)
+            self.data_call = None      # stored targets (if any) are no longer the conditioning points
             kw["cond_pos"] = cp
             cfg["cond_pos"] = cp
             op["pos"] = self._id()
@@ -658,50 +788,233 @@ class History:
             args = [kw.pop("cond_pos"), kw.pop("cond_val")]
         else:
             args = []
+        fit = self.draw_fit(0.25)
+        if fit:
+            kw.update(fit_variogram=fit["variogram"], fit_normalizer=fit["normalizer"])
+            if fit["variogram"]:
+                op["fitv"] = self._id()
+            if fit["normalizer"]:
+                op["fitn"] = self._id()
         kr.set_condition(*args, **kw)
         self.stale = False
         self.ops.append(op)
         self.log.append("set_condition:" + form)
+        if fit:
+            self.after_fit(fit, "set_condition")
         return form
 
-    # -- calls
-    def call_args(self, on_data=False):
+    # -- target positions
+    def _reg(self, pos, mesh):
+        i = self._id()
+        self.pos_ids[i] = (pos, mesh)
+        return i
+
+    def _far(self, structured):
+        """well separated random targets (unstructured: 1-8 points; structured: 1-4 values per axis)"""
         rng, cfg = self.rng, self.cur
-        m = int(rng.randint(1, 9))
-        _, tp = gen_positions(rng, cfg["latlon"], cfg["temporal"], cfg["fdim"], 2, m)
-        self.last_sel = None
-        if on_data or rng.rand() < 0.25:
+        if not structured:
+            _, tp = gen_positions(rng, cfg["latlon"], cfg["temporal"], cfg["fdim"], 2, int(rng.randint(1, 9)))
+            return to_raw(cfg, tp)
+        _, tp = gen_positions(rng, cfg["latlon"], cfg["temporal"], cfg["fdim"], 2, 4)
+        tp = to_raw(cfg, tp)
+        axes = [tp[i, : int(rng.randint(1, 5))].copy() for i in range(cfg["fdim"])]
+        return [np.sort(a) for a in axes] if rng.rand() < 0.5 else axes
+
+    def _near(self, pos, mesh):
+        """positions of identical shape that differ only slightly relative to their magnitude: relative changes
+        1e-12 .. 1e-2 of all coordinates, of one axis, or of a single coordinate (never identical to `pos`)"""
+        rng, cfg = self.rng, self.cur
+        comps = [np.array(a, dtype=float, copy=True) for a in pos]
+        r = 10.0 ** rng.uniform(-12, -2)
+        mode = str(rng.choice(["rel", "shift", "shift-axis", "jitter", "one"]))
+        which = range(len(comps)) if mode in ("rel", "shift", "jitter") else [int(rng.randint(len(comps)))]
+        for i in which:
+            a = comps[i]
+            mag = max(float(np.abs(a).max()), 1e-3 * unit_of(cfg))
+            sg = float(rng.choice([-1.0, 1.0]))
+            if mode == "rel":
+                a *= 1.0 + sg * r
+            elif mode in ("shift", "shift-axis"):
+                a += sg * r * mag
+            elif mode == "jitter":
+                a *= 1.0 + r * rng.uniform(-1, 1, size=a.shape)
+            else:
+                j = int(rng.randint(a.size))
+                a[j] += sg * r * max(abs(a[j]), 1e-3 * unit_of(cfg))
+        if all(np.array_equal(a, b) for a, b in zip(comps, pos)):      # r below the resolution: one ulp instead
+            comps[0][0] = np.nextafter(comps[0][0], np.inf)
+        return (comps if mesh else np.array(comps)), "near:" + mode + (":<1e-5" if r < 1e-5 else ":>=1e-5")
+
+    def flat(self, pid):
+        """the requested targets as an (fdim, m) array in the order of the returned (C-ordered) field"""
+        pos, mesh = self.pos_ids[pid]
+        if not mesh:
+            return np.asarray(pos, dtype=float).reshape(self.cur["fdim"], -1)
+        return np.array(np.meshgrid(*pos, indexing="ij")).reshape(self.cur["fdim"], -1)
+
+    def stored_is(self, pid, obj=None):
+        """the public `pos` / `mesh_type` of the object are exactly the positions `pid` (None: nothing stored)"""
+        kr = self.kr if obj is None else obj
+        if pid is None:
+            return kr.pos is None
+        pos, mesh = self.pos_ids[pid]
+        if kr.pos is None or kr.mesh_type != ("structured" if mesh else "unstructured"):
+            return False
+        if not mesh:
+            return isinstance(kr.pos, np.ndarray) and np.array_equal(kr.pos, np.asarray(pos, dtype=float).reshape(self.cur["fdim"], -1))
+        return len(kr.pos) == len(pos) and all(np.array_equal(np.asarray(a), b) for a, b in zip(kr.pos, pos))
+
+    def set_pos(self, pid):
+        """`kr.set_pos(pos, mesh_type)`; returns whether the stored positions are the given ones afterwards"""
+        pos, mesh = self.pos_ids[pid]
+        self.kr.set_pos([a.copy() for a in pos] if mesh else pos.copy(), "structured" if mesh else "unstructured")
+        self.given = pid
+        self.data_call = None
+        self.ops.append(dict(k="set_pos", p=pid, structured=bool(mesh)))
+        self.log.append("set_pos")
+        return self.stored_is(pid)
+
+    # -- calls
+    def plan_call(self, on_data=False):
+        """chooses the positional part of the next call.  Returns dict(kind, pid (identifier of the positions passed
+        or None), mesh (bool), via (bool), pre_set (identifier handed to set_pos before the call, or None))"""
+        rng, cfg = self.rng, self.cur
+        have = self.given is not None
+        prev = self.pos_ids[self.given] if have else None
+        if on_data:
             k = cfg["cond_pos"].shape[1]
             sel = rng.permutation(k)[: max(1, k // 2)]
-            tp = cfg["cond_pos"][:, sel].copy() if on_data else np.hstack([cfg["cond_pos"][:, sel], tp])
-            self.last_sel = sel if on_data else None
-        m = tp.shape[1]
+            return dict(kind="data", pid=self._reg(cfg["cond_pos"][:, sel].copy(), False), mesh=False,
+                        via=bool(rng.rand() < 0.3), pre_set=None, sel=sel)
+        if have:
+            kinds, p = ["far", "far-structured", "near", "none", "none-via", "switch", "grid", "repeat", "set_pos", "mixed"], \
+                [0.15, 0.09, 0.25, 0.12, 0.05, 0.05, 0.05, 0.04, 0.07, 0.13]
+        else:
+            kinds, p = ["far", "far-structured", "none", "none-via", "set_pos", "mixed"], [0.4, 0.2, 0.04, 0.03, 0.13, 0.2]
+        kind = str(rng.choice(kinds, p=p))
+        via = bool(rng.rand() < 0.3)
+        out = dict(kind=kind, pre_set=None, sel=None, via=via)
+        if kind == "mixed":       # conditioning points followed by free targets
+            k = cfg["cond_pos"].shape[1]
+            sel = rng.permutation(k)[: max(1, k // 2)]
+            out.update(pid=self._reg(np.hstack([cfg["cond_pos"][:, sel], self._far(False)]), False), mesh=False)
+        elif kind in ("far", "far-structured"):
+            mesh = kind == "far-structured"
+            out.update(pid=self._reg(self._far(mesh), mesh), mesh=mesh)
+        elif kind == "near":
+            npos, tag = self._near(*prev)
+            out.update(pid=self._reg(npos, prev[1]), mesh=prev[1], kind=tag)
+        elif kind == "repeat":    # equal coordinates in a new array
+            pos, mesh = prev
+            out.update(pid=self._reg([a.copy() for a in pos] if mesh else pos.copy(), mesh), mesh=mesh)
+            out["sel"] = self.data_call
+        elif kind in ("none", "none-via"):
+            # no positions: the stored ones are reused.  Plain calls ignore the mesh_type argument then; the methods
+            # structured() / unstructured() refuse to reuse positions of the other type
+            out.update(pid=None, mesh=bool(rng.rand() < 0.5), via=kind == "none-via")
+            if kind == "none-via" and have and rng.rand() < 0.7:
+                out["mesh"] = prev[1]
+            out["sel"] = self.data_call
+        elif kind == "switch":    # the same coordinate tuple under the other mesh type
+            pos, mesh = prev
+            if mesh and len({len(a) for a in pos}) == 1:
+                out.update(pid=self._reg(np.array(pos), False), mesh=False)
+            elif not mesh and pos.shape[1] <= (4 if cfg["fdim"] == 3 else 8):
+                out.update(pid=self._reg([a.copy() for a in pos], True), mesh=True)
+            else:
+                out.update(kind="far", pid=self._reg(self._far(False), False), mesh=False)
+        elif kind == "grid":      # unstructured call at the grid points of the stored axes
+            pos, mesh = prev
+            if mesh:
+                out.update(pid=self._reg(self.flat(self.given), False), mesh=False)
+            else:
+                out.update(kind="far-structured", pid=self._reg(self._far(True), True), mesh=True)
+        else:                     # set_pos with new / nearly equal positions, then a call without positions
+            if have and rng.rand() < 0.5:
+                npos, tag = self._near(*prev)
+                out.update(pre_set=self._reg(npos, prev[1]), kind="set_pos:" + tag)
+            else:
+                mesh = bool(rng.rand() < 0.3)
+                out.update(pre_set=self._reg(self._far(mesh), mesh))
+            out.update(pid=None, mesh=bool(rng.rand() < 0.5), via=False)
+        return out
+
+    def call_args(self, on_data=False):
+        """plans and prepares one call: returns the event dict (without the result).  A planned set_pos is executed."""
+        rng, cfg = self.rng, self.cur
+        plan = self.plan_call(on_data)
+        ev = dict(plan, hist=self, stored_ok=True)
+        if plan["pre_set"] is not None:
+            ev["stored_ok"] = self.set_pos(plan["pre_set"])
+        # the targets the call is asked to evaluate (specification side, tracked by the harness on its own)
+        if plan["pid"] is not None:
+            req = plan["pid"]
+        elif self.given is not None and not (plan["via"] and self.pos_ids[self.given][1] != plan["mesh"]):
+            req = self.given
+        else:
+            req = None
+        ev["req"] = req
+        ev["flat"] = None if req is None else self.flat(req)
+        self.last_sel = plan["sel"] if (req is not None and plan["sel"] is not None) else None
+        ev["sel"] = self.last_sel
+        m = 1 if req is None else ev["flat"].shape[1]
         kw = dict(chunk_size=None if rng.rand() < 0.4 else int(rng.randint(1, m + 2)),
                   only_mean=bool(rng.rand() < 0.15), return_var=bool(rng.rand() < 0.7),
                   post_process=bool(rng.rand() < 0.6), store=bool(rng.rand() < 0.5))
-        if on_data:
+        if self.last_sel is not None:
             kw.update(only_mean=False, return_var=True, post_process=True)
         if cfg["ext"] is not None:
             kw["ext_drift"] = rng.randn(cfg["ext"][0].shape[0], m)
             if self.last_sel is not None:     # targets on the data carry the data's external drift
                 kw["ext_drift"] = np.asarray(cfg["ext"][0])[:, self.last_sel].copy()
-        return tp, kw
+        ev["kw"] = kw
+        pos = None if plan["pid"] is None else self.pos_ids[plan["pid"]][0]
+        ev["tp"] = pos
+        self.kinds[plan["kind"]] = self.kinds.get(plan["kind"], 0) + 1
+        return ev
 
-    def call(self, tp, kw, obj=None):
-        """returns ("ok", field, var-or-None) or ("error", type name)"""
-        kr = self.kr if obj is None else obj
+    @staticmethod
+    def _canon(fn):
         try:
             with warnings.catch_warnings():
                 warnings.simplefilter("ignore")
-                out = kr(tp, **kw)
+                out = fn()
         except Exception as e:
             return ("error", type(e).__name__)
         if isinstance(out, tuple):
             return ("ok", np.array(out[0]), np.array(out[1]))
         return ("ok", np.array(out), None)
 
-    def record_call(self):
-        self.ops.append(dict(k="call"))
+    def call(self, tp, kw, obj=None, mesh=False, via=False):
+        """returns ("ok", field, var-or-None) or ("error", type name)"""
+        kr = self.kr if obj is None else obj
+        mt = "structured" if mesh else "unstructured"
+        arg = None if tp is None else ([a.copy() for a in tp] if isinstance(tp, list) else np.array(tp, copy=True))
+        if via:
+            f = kr.structured if mesh else kr.unstructured
+            return self._canon((lambda: f(**kw)) if arg is None else (lambda: f(arg, **kw)))
+        return self._canon(lambda: kr(arg, mesh_type=mt, **kw))
+
+    def do_call(self, ev):
+        """executes the planned call on the object with the history and records it"""
+        ev["res"] = self.call(ev["tp"], ev["kw"], mesh=ev["mesh"], via=ev["via"])
+        op = dict(k="call", structured=bool(ev["mesh"]), via=bool(ev["via"]))
+        if ev["pid"] is not None:
+            op["pos"] = ev["pid"]
+            self.given = ev["pid"]
+            self.data_call = ev["sel"] if ev["kind"] in ("data", "repeat") else None
+        self.ops.append(op)
+        ev["given"] = self.given
+        # public attributes afterwards: the stored positions are the ones last given
+        ev["stored_ok"] = ev["stored_ok"] and self.stored_is(self.given)
+        return ev
+
+    def call_fresh(self, ev, obj):
+        """the same call on another (freshly constructed) object, which is GIVEN the requested targets explicitly"""
+        if ev["req"] is None:
+            return self.call(None, ev["kw"], obj=obj, mesh=ev["mesh"], via=ev["via"])
+        pos, mesh = self.pos_ids[ev["req"]]
+        return self.call(pos, ev["kw"], obj=obj, mesh=mesh, via=False)
 
     def fresh(self):
         """a freshly constructed object with the current model parameters and conditions (or None)"""
@@ -715,27 +1028,35 @@ class History:
 
 def make_hist_model(cfg, zero_mode):
     mr = np.random.RandomState(cfg["model_seed"])
-    return make_model(mr, cfg["dim"], cfg["latlon"], cfg["temporal"], nugget=0.0 if zero_mode == "no-nugget" else None)
+    return make_model(mr, cfg["dim"], cfg["latlon"], cfg["temporal"], nugget=0.0 if zero_mode == "no-nugget" else cfg.get("nugget"),
+                      unit=unit_of(cfg))
 
 
 def run_history(rng, cfg, segments=3, zero_mode=None):
-    """generator: drives one History and yields, for every call made, a dict
-    (hist, tp, kw, res, synced, step).  Calls in a stale state (model edited, no set_condition yet) are made and
-    yielded with synced=False (nothing is claimed about them)."""
+    """generator: drives one History and yields, for every call made, the event dict
+    (hist, kind, tp, mesh, via, req, flat, kw, res, synced, step, sel, stored_ok, given).  Calls in a stale state
+    (model edited, no set_condition yet) are made and yielded with synced=False (nothing is claimed about their
+    values; their positions count).  The calls use new, nearly equal, repeated or no positions, both mesh types,
+    the methods structured()/unstructured() and set_pos (History.plan_call)."""
     with warnings.catch_warnings():
         warnings.simplefilter("ignore")
         h = History(rng, cfg, zero_mode)
     step = 0
+
+    def one(on_data, synced=None):
+        nonlocal step
+        with warnings.catch_warnings():
+            warnings.simplefilter("ignore")
+            ev = h.do_call(h.call_args(on_data=on_data))
+        step += 1
+        ev.update(synced=(not h.stale) if synced is None else synced, step=step)
+        return ev
     for seg in range(segments):
         # calls on the synced object (first segment: the freshly constructed one)
-        for _ in range(int(rng.randint(1, 3))):
+        for _ in range(int(rng.randint(1, 4))):
             if h.need_val:
                 break
-            tp, kw = h.call_args(on_data=bool(zero_mode) and rng.rand() < 0.5)
-            res = h.call(tp, kw)
-            h.record_call()
-            step += 1
-            yield dict(hist=h, tp=tp, kw=kw, res=res, synced=True, step=step, sel=h.last_sel)
+            yield one(bool(zero_mode) and rng.rand() < 0.4, True)
         # edits
         ne = int(rng.randint(0, 3))
         for _ in range(ne):
@@ -743,17 +1064,9 @@ def run_history(rng, cfg, segments=3, zero_mode=None):
                 warnings.simplefilter("ignore")
                 (h.edit_model if rng.rand() < 0.7 else h.edit_mnt)()
             if rng.rand() < 0.3 and not h.need_val:      # a call between the edits and set_condition
-                tp, kw = h.call_args()
-                res = h.call(tp, kw)
-                h.record_call()
-                step += 1
-                yield dict(hist=h, tp=tp, kw=kw, res=res, synced=not h.stale, step=step, sel=None)
+                yield one(False)
         with warnings.catch_warnings():
             warnings.simplefilter("ignore")
             h.set_condition()
-    for _ in range(int(rng.randint(1, 3))):
-        tp, kw = h.call_args(on_data=bool(zero_mode) and rng.rand() < 0.5)
-        res = h.call(tp, kw)
-        h.record_call()
-        step += 1
-        yield dict(hist=h, tp=tp, kw=kw, res=res, synced=True, step=step, sel=h.last_sel)
+    for _ in range(int(rng.randint(1, 4))):
+        yield one(bool(zero_mode) and rng.rand() < 0.4, True)
